@@ -372,6 +372,8 @@ fn phase_point(phase: &str) -> Option<&'static str> {
         "dtlsHandshaking" => Some("dtls.handshaking"),
         "dtlsConnected" => Some("dtls.connected"),
         "sctpConnecting" => Some("loops.spawned"),
+        // a send_data() call has found the buffered-amount limit exceeded and is about to wait (live peer)
+        "senderBlocked" => Some("sctp:send.before_wait"),
         _ => None,
     }
 }
@@ -452,7 +454,7 @@ async fn run_c17(sc: &Value, attempt: u64, rec: Arc<Recorder>) -> Value {
     let loss = [ev1.as_str(), ev2.as_str()].iter().any(|e| matches!(*e, "SocketLoss" | "PeerSctpShutdown"));
     let blocked = ev1 == "BlockedSender";
     cfg.fast_timers = loss;
-    cfg.small_sctp_buffer = blocked;
+    cfg.small_sctp_buffer = blocked || phase == "senderBlocked";
 
     // loss scenarios: the DTLS handshake deadline (30 s) and retransmission tick (1 s) are shortened too
     rustrtc::verif::set_override("dtls_deadline_ms", if loss { Some(3000) } else { None });
@@ -562,7 +564,7 @@ async fn run_c17(sc: &Value, attempt: u64, rec: Arc<Recorder>) -> Value {
             notes.push(e);
             return;
         }
-        if plan.phase_point.is_some() {
+        if plan.phase_point.is_some() && phase != "senderBlocked" {
             // the event fires inside the probe; wait for it
             wait_until(Duration::from_secs(10), || plan.fired1.load(Ordering::SeqCst)).await;
             return;
@@ -604,6 +606,43 @@ async fn run_c17(sc: &Value, attempt: u64, rec: Arc<Recorder>) -> Value {
                 notes.push("media not flowing within 5 s".into());
                 return;
             }
+        }
+        if phase == "senderBlocked" {
+            // the victim streams over a small send buffer to a live peer: every time the limit is exceeded the
+            // sender waits for window credit; the event fires inside the first such wait (probe)
+            if let Some(pc) = v.try_pc() {
+                let l = v.label.clone();
+                let id = v.dc.lock().as_ref().map(|d| d.id).unwrap_or(0);
+                let stop = stop_traffic.clone();
+                log("app", &victim, "api_begin", json!({"call": "send_data.blocked"}));
+                pending.push(tokio::spawn(async move {
+                    let buf = vec![9u8; 4096];
+                    for _ in 0..20000 {
+                        if stop.load(Ordering::SeqCst) {
+                            break;
+                        }
+                        let t0 = Instant::now();
+                        match tokio::time::timeout(Duration::from_secs(15), pc.send_data(id, &buf)).await {
+                            Err(_) => {
+                                log("app", &l, "api_hang", json!({"call": "send_data.blocked", "bound_ms": 15000}));
+                                return json!({"call": "send_data.blocked", "hang": true});
+                            }
+                            Ok(Err(e)) => {
+                                let ms = t0.elapsed().as_millis() as u64;
+                                log("app", &l, "api_end", json!({"call": "send_data.blocked", "ms": ms, "res": "err"}));
+                                return json!({"call": "send_data.blocked", "hang": false, "ms": ms, "res": format!("err:{e}")});
+                            }
+                            Ok(Ok(())) => {}
+                        }
+                    }
+                    log("app", &l, "api_end", json!({"call": "send_data.blocked", "ms": 0, "res": "ok"}));
+                    json!({"call": "send_data.blocked", "hang": false, "res": "ok"})
+                }));
+            }
+            if !wait_until(Duration::from_secs(10), || plan.fired1.load(Ordering::SeqCst)).await {
+                notes.push("sender never had to wait".into());
+            }
+            return;
         }
         if phase == "renegotiating" {
             // the victim has made a new offer (HaveLocalOffer) when the event fires
